@@ -222,7 +222,7 @@ fn c06_3a_interpolated_value_endpoints() {
     kani::cover!(prev < raw);
 }
 
-// @ob id=C06.3b strength=bounded tier=thorough timeout=3600 bound="previous, raw, amount restricted to 4 significant mantissa bits" fn=parameter.rs::Parameter::interpolated_value
+// @ob id=C06.3b strength=bounded tier=disabled bound="previous, raw, amount restricted to 4 significant mantissa bits" fn=parameter.rs::Parameter::interpolated_value
 // @req previous, raw in [-1e6,1e6], amount in [0,1], 4-bit mantissas
 // @ens the in-chunk value stays between previous and current (widened by 2.3e-10) and is monotone in the amount
 #[kani::proof]
